@@ -110,3 +110,15 @@ func (s *Scanner) VerifStepStackNames() []string {
 	}
 	return out
 }
+
+var (
+	verifExpectKeywordPC = reflect.ValueOf(stepFunc(stateExpectKeyword)).Pointer()
+	verifRootPC          = reflect.ValueOf(stepFunc(stateRoot)).Pointer()
+)
+
+// VerifExpectsKeyword reports whether the scanner is between directives (the current step is
+// stateRoot or stateExpectKeyword): nothing on the step stack is due to be popped then.
+func (s *Scanner) VerifExpectsKeyword() bool {
+	pc := reflect.ValueOf(s.step).Pointer()
+	return pc == verifExpectKeywordPC || pc == verifRootPC
+}
